@@ -179,6 +179,12 @@ def run(ctx):
             from ..terms import apply_closure
             pred = apply_closure(r[2][1], (("elem", ("dummy",)),))
             okie = pred[0] == "call" and pred[1].endswith("is_zero") and pred[2] == (("elem", ("dummy",)),)
+        else:
+            from .common import bool_loop_form
+            bl = bool_loop_form(ctx, ie)      # `for x in &self.table { if !x.is_zero() { return false } } true`
+            if bl is not None and bl[0] == "all" and bl[1] == ("field", selfp, "table"):
+                pred = bl[2]
+                okie = pred[0] == "call" and pred[1].endswith("is_zero") and pred[2] == (("elem", ("field", selfp, "table")),)
         ctx.check(okie, "R02-is-empty", ie.key, ie, "is_empty == table.iter().all(is_zero) over the whole table", "is_empty is %s — not `every cell of the table is zero`" % fmt(r)[:200])
     # ---- merge guards (shared with C06) ----------------------------------------------------------------------
     mg = ctx.anchor(CMS + "::merge")
